@@ -289,10 +289,10 @@ func newCState(rm *protocol.ResolutionModel, parent *cstate) *cstate {
 
 // stepResult is what one real Apply call did.
 type stepResult struct {
-	next    *cstate // state in force afterwards
-	err     bool
-	mutated string // non-empty: which input was modified by the call (C12)
-	partial bool   // error together with a non-nil result (C12)
+	next     *cstate // state in force afterwards
+	err      bool
+	mutated  string // non-empty: which input was modified by the call (C12)
+	partial  bool   // error together with a non-nil result (C12)
 	panicked string
 }
 
@@ -388,12 +388,13 @@ type collector struct {
 	maxReport int
 	only      map[string]bool
 	kinds     map[string]int
+	keyCounts map[string]int
 	nCases    int64
 	nMismatch int64
 }
 
 func newCollector(family string, only string) *collector {
-	c := &collector{maxReport: 25, kinds: map[string]int{}}
+	c := &collector{maxReport: 300, kinds: map[string]int{}, keyCounts: map[string]int{}}
 	c.sum.Family = family
 	c.sum.Extra = map[string]interface{}{}
 
@@ -437,9 +438,11 @@ func (c *collector) report(m mismatch) {
 
 	atomic.AddInt64(&c.nMismatch, 1)
 	c.mu.Lock()
-	if len(c.sum.Mismatches) < c.maxReport {
+	// the first instance of every distinct key is kept (known findings are matched by key)
+	if c.keyCounts[m.Key] == 0 && len(c.sum.Mismatches) < c.maxReport {
 		c.sum.Mismatches = append(c.sum.Mismatches, m)
 	}
+	c.keyCounts[m.Key]++
 	c.mu.Unlock()
 }
 
@@ -461,6 +464,7 @@ func (c *collector) finish() {
 	c.sum.Cases = c.nCases
 	c.sum.NMismatch = c.nMismatch
 	c.sum.Distinct = len(c.kinds)
+	c.sum.Extra["mismatch_keys"] = c.keyCounts
 	writeJSON(os.Stdout, c.sum)
 }
 
@@ -539,11 +543,11 @@ func applierReplay(args []string) {
 	lines := make(chan []byte, 1024)
 
 	var (
-		wg                        sync.WaitGroup
-		accepted, refused         int64
-		tampers, tvChecks         int64
-		negDone                   int32
-		expandedOps               sync.Map
+		wg                sync.WaitGroup
+		accepted, refused int64
+		tampers, tvChecks int64
+		negDone           int32
+		expandedOps       sync.Map
 	)
 
 	for w := 0; w < runtime.NumCPU(); w++ {
